@@ -1,9 +1,9 @@
 (* C06 -- source facts.  The machines and monitors this property rests on were written against, and validated on,
    these definitions of /repo; tools/srcfacts.py regenerates their normal-form digests on every run (coq/Gen/Src_*.v).
-   Statements only. *)
+   Statements only.  Written by `tools/srcfacts.py --props` from PROP_MODULES. *)
 From Coq Require Import List String.
-From ME Require Import Model.SrcExpected Gen.Src_retry Gen.Src_common Gen.Src_map Gen.Src_flat_map Gen.Src_fbool Gen.Src_fzip Gen.Src_fbase Gen.Src_poll Gen.Src_throttle Gen.Src_timeout Gen.Src_cos Gen.Src_fnocancel Gen.Src_fmap Gen.Src_fsequence Gen.Src_fapply
-  Proofs.Src_ok_retry Proofs.Src_ok_common Proofs.Src_ok_map Proofs.Src_ok_flat_map Proofs.Src_ok_fbool Proofs.Src_ok_fzip Proofs.Src_ok_fbase Proofs.Src_ok_poll Proofs.Src_ok_throttle Proofs.Src_ok_timeout Proofs.Src_ok_cos Proofs.Src_ok_fnocancel Proofs.Src_ok_fmap Proofs.Src_ok_fsequence Proofs.Src_ok_fapply.
+From ME Require Import Model.SrcExpected Gen.Src_retry Gen.Src_common Gen.Src_map Gen.Src_flat_map Gen.Src_fbool Gen.Src_fzip Gen.Src_fbase Gen.Src_poll Gen.Src_throttle Gen.Src_timeout Gen.Src_cos Gen.Src_fnocancel Gen.Src_fmap Gen.Src_fsequence Gen.Src_fapply Gen.Src_logwrap Gen.Src_metrics_null
+  Proofs.Src_ok_retry Proofs.Src_ok_common Proofs.Src_ok_map Proofs.Src_ok_flat_map Proofs.Src_ok_fbool Proofs.Src_ok_fzip Proofs.Src_ok_fbase Proofs.Src_ok_poll Proofs.Src_ok_throttle Proofs.Src_ok_timeout Proofs.Src_ok_cos Proofs.Src_ok_fnocancel Proofs.Src_ok_fmap Proofs.Src_ok_fsequence Proofs.Src_ok_fapply Proofs.Src_ok_logwrap Proofs.Src_ok_metrics_null.
 
 (* more_executors/_impl/retry.py *)
 Theorem c06_source_retry : Src_retry.facts = expected_retry.
@@ -50,6 +50,12 @@ Proof. exact src_fsequence_ok. Qed.
 (* more_executors/_impl/futures/apply.py *)
 Theorem c06_source_fapply : Src_fapply.facts = expected_fapply.
 Proof. exact src_fapply_ok. Qed.
+(* more_executors/_impl/logwrap.py *)
+Theorem c06_source_logwrap : Src_logwrap.facts = expected_logwrap.
+Proof. exact src_logwrap_ok. Qed.
+(* more_executors/_impl/metrics/null.py *)
+Theorem c06_source_metrics_null : Src_metrics_null.facts = expected_metrics_null.
+Proof. exact src_metrics_null_ok. Qed.
 
 Print Assumptions c06_source_retry.
 Print Assumptions c06_source_common.
@@ -66,3 +72,5 @@ Print Assumptions c06_source_fnocancel.
 Print Assumptions c06_source_fmap.
 Print Assumptions c06_source_fsequence.
 Print Assumptions c06_source_fapply.
+Print Assumptions c06_source_logwrap.
+Print Assumptions c06_source_metrics_null.
